@@ -20,6 +20,14 @@ Proof. reflexivity. Qed.
 Lemma gen_none_keeps_kind : h_none_eq gen_cfg = true.
 Proof. reflexivity. Qed.
 
+(** _handle_self_join re-targets a reference taken from the very DataFrame being joined (fixed defect, commit 5a8e675), and
+    _add_ctes_to_expression rewrites the CTEs that follow a renamed duplicate in place, so that join() never sees a stale
+    table name (fixed defect, commit cbe502c) *)
+Lemma gen_self_join_exact_ok : gen_self_join_exact = true.
+Proof. reflexivity. Qed.
+Lemma gen_rename_in_place_ok : gen_rename_in_place = true.
+Proof. reflexivity. Qed.
+
 (** every documented spelling of [how] reaches the join kind Spark gives it, with that kind's flags
     (left columns only <-> semi/anti, COALESCE of the keys <-> full outer, right-to-left resolution <-> right outer) *)
 Theorem C02_how_total : forall how, In how documented ->
